@@ -152,6 +152,22 @@ def fd_compare(torch, f, params, grads, rng, max_entries=6):
                 fd = (fp - fm) / (2 * FD_STEP)
                 ad = float(part(g.reshape(-1)[idx])) if g.is_complex() else float(g.reshape(-1)[idx])
                 excess = abs(ad - fd) - (ATOL_FD + RTOL_FD * max(abs(ad), abs(fd)))
+                if excess > 0:
+                    # the emulated result is only accurate to the Krylov tolerance (1e-12) and not smooth at that level, so a
+                    # step of 1e-6 carries noise ~1e-12/1e-6 (seen: thorough seed 0, case 174, 2.3e-7 on a state entry while the
+                    # 4th-order difference with step 1e-4 agrees to 3e-10). A discrepancy counts only if it is confirmed by
+                    # that second, noise-robust difference quotient.
+                    h = 100 * FD_STEP
+                    vals = []
+                    with torch.no_grad():
+                        for mult in (1, -1, 2, -2):
+                            p.reshape(-1)[idx] = old + mult * h * d
+                            vals.append(float(f()))
+                        p.reshape(-1)[idx] = old
+                    fd4 = (8 * (vals[0] - vals[1]) - (vals[2] - vals[3])) / (12 * h)
+                    ex4 = abs(ad - fd4) - (ATOL_FD + RTOL_FD * max(abs(ad), abs(fd4)))
+                    if ex4 < excess:
+                        excess, fd = ex4, fd4
                 if excess > worst:
                     worst, detail = excess, f"{name}[{idx}]{'(imag)' if d == 1j else ''}: autograd {ad:.9e} vs finite difference {fd:.9e}"
     return worst, detail
